@@ -169,7 +169,7 @@ def main(ctx, args):
         st["matches"] += 1
         r = parse_resp(resp, line)
         if r["kind"] == "T":
-            ctx.violation("pattern %s: no answer within 3 s (compilation or matching does not terminate)" % ptxt, rep,
+            ctx.violation("pattern %s: no answer within 2 s (compilation or matching does not terminate)" % ptxt, rep,
                           {"kind": "hang", "flaw": flaw, "eloop": c.get("eloop", 0), "nest": c.get("nest", 0)})
             continue
         if c["p"] is not None and req[0] == "M":
@@ -219,11 +219,13 @@ def main(ctx, args):
                               (ptxt, rep["line"][:40], so, eo), rep, {"kind": "bounds"})
             if len(samples) < 4 and len(ptxt) > 5:
                 samples.append({"pattern": ptxt, "line": rep["line"][:30], "offsets": [so, eo], "reserved": r["alloc"], "used": r["used"]})
+    import rawre
+    st.update(rawre.raw_check(ctx, 4 if ctx.quick else 5))
     cov = {"evaluations": st["matches"], "distinct_nontrivial": st["found"],
            "rule": "pattern strings = every string of <= 3 (4) symbols over {a ( ) [ ] ^ $ | * + ? { } , 1 2 \\ < . - :}, a seeded "
                    "sample of such strings up to 8 symbols, and seeded random byte strings (1..255, <= 64 bytes); each compiled "
                    "through rset_make and rstr_make and matched against 4 of 8 lines (empty, ASCII, multi-byte, 300 characters); "
-                   "non-trivial = compiled and matched somewhere",
+                   "non-trivial = compiled and matched somewhere; in addition every string of <= 4 (5) symbols over {a \\ { } 1 , ( ) [ ] * | 2 <} is handed to regcomp() itself, unwrapped, in a heap copy of its exact size (rawre.c): it must refuse or compile within 2 s without a sanitizer report",
            "samples": samples, "stats": st, "exhaustive": True,
            "explanation": "accept/reject and reserved/used sizes are compared with ParseRe/CountEst/EmitLen of Regex.tla for "
                           "every symbol string; 'unfit' counts accepted patterns whose estimate is below the emitted size in the spec"}
